@@ -132,6 +132,7 @@ func (v *PacketDslVisitorImpl) VisitPacketDefinition(ctx *gen.PacketDefinitionCo
 	var fieldMap = make(map[string]*model.Field)
 	var lengthField *model.Field
 	var matchFields = make(map[string][]model.MatchPair)
+	var fieldLines = make(map[*model.Field]int)
 	for _, fctx := range ctx.AllFieldDefinitionWithAttribute() {
 		if fc, ok := fctx.(*gen.FieldDefinitionWithAttributeContext); ok {
 			fd := v.VisitFieldDefinitionWithAttribute(fc)
@@ -163,6 +164,7 @@ func (v *PacketDslVisitorImpl) VisitPacketDefinition(ctx *gen.PacketDefinitionCo
 
 			fields = append(fields, fld)
 			fieldMap[fld.Name] = fld
+			fieldLines[fld] = fctx.GetStart().GetLine()
 
 			if mf, ok := fld.Attr.(*model.MatchFieldAttribute); ok {
 				matchFields[mf.MatchKeyField.Name] = mf.MatchPairs
@@ -183,12 +185,30 @@ func (v *PacketDslVisitorImpl) VisitPacketDefinition(ctx *gen.PacketDefinitionCo
 				c.RefPacket = v.BinModel.PacketsMap[c.PacketName]
 			}
 		case *model.LengthFieldAttribute:
+			target, ok := fieldMap[c.TragetField.Name]
+			if !ok {
+				v.BinModel.AddSyntaxError(&model.SyntaxError{
+					Line:   fieldLines[f],
+					Column: f.Column,
+					Msg:    "Unknown field " + c.TragetField.Name + " in @lengthOf of " + f.Name,
+				})
+				continue
+			}
 			f.Attr = &model.LengthFieldAttribute{
 				LengthType:  f.GetType(),
-				TragetField: fieldMap[c.TragetField.Name],
+				TragetField: target,
 			}
 		case *model.MatchFieldAttribute:
-			c.MatchKeyField = fieldMap[c.MatchKeyField.Name]
+			key, ok := fieldMap[c.MatchKeyField.Name]
+			if !ok {
+				v.BinModel.AddSyntaxError(&model.SyntaxError{
+					Line:   fieldLines[f],
+					Column: f.Column,
+					Msg:    "Unknown match key field " + c.MatchKeyField.Name + " for " + f.Name,
+				})
+				continue
+			}
+			c.MatchKeyField = key
 
 		}
 	}
